@@ -224,6 +224,14 @@ func (g *graph) addNode(key string, node *graphNode, options *graphAddNodeOpts) 
 		}
 	}
 
+	if node.cr != nil && node.cr.isPassthrough {
+		// the type inferred for a pass-through node is written into the node (updateToValidateMap): into this graph's
+		// own copy, since a Parallel / ChainBranch hands the same node to every chain it is appended to
+		own, cr := *node, *node.cr
+		own.cr = &cr
+		node = &own
+	}
+
 	g.nodes[key] = node
 
 	return nil
